@@ -204,7 +204,23 @@ impl Sut {
         from: [u8; 32],
         state: &mut SyncOutcome,
     ) -> anyhow::Result<Option<ProtocolMessage>> {
+        self.sync_process_cb(ns, msg, from, state, None)
+    }
+
+    /// As `sync_process`, on a handle that reports the content status of outgoing entries through
+    /// `cb` (what the store actor sets up for the replicas it opens).
+    pub fn sync_process_cb(
+        &mut self,
+        ns: NamespaceId,
+        msg: ProtocolMessage,
+        from: [u8; 32],
+        state: &mut SyncOutcome,
+        cb: Option<iroh_docs::ContentStatusCallback>,
+    ) -> anyhow::Result<Option<ProtocolMessage>> {
         let mut r = self.store.open_replica(&ns)?;
+        if let Some(cb) = cb {
+            iroh_docs::verif::replica_set_content_status_callback(&mut r, cb);
+        }
         let m = block_on(r.sync_process_message(msg, from, state));
         drop(r);
         self.store.close_replica(ns);
